@@ -11,7 +11,7 @@ typedef struct
 {	const Fmt	*f ;
 	int			fi, ch, rate, B, seekable, has_codec_state, blockwidth, ok ;
 	long		F ;
-	unsigned char *bytes ; sf_count_t len, dataoffset ;
+	unsigned char *bytes, *plain ; sf_count_t len, plain_len, dataoffset ;
 	void		*ref [T_NTYPES] ;
 } Root ;
 
@@ -33,7 +33,7 @@ static int root_build (int fi, const Fmt *f, int ch)
 {	SF_INFO info ; SNDFILE *sf ; long N, items ; int wtype, rc ; void *wbuf ; PeekState pk ;
 
 	if (root.fi == fi && root.ch == ch) return root.ok ;
-	free (root.bytes) ; for (int t = 0 ; t < T_NTYPES ; t++) free (root.ref [t]) ;
+	free (root.bytes) ; free (root.plain) ; for (int t = 0 ; t < T_NTYPES ; t++) free (root.ref [t]) ;
 	memset (&root, 0, sizeof (root)) ;
 	root.fi = fi ; root.f = f ; root.ch = ch ; root.rate = fmt_default_rate (f) ; root.B = fmt_block (f, ch, root.rate) ;
 	N = root.B > 1 ? 2 * root.B + root.B / 2 + 1 : 4200 / ch + 3 ;
@@ -56,7 +56,17 @@ static int root_build (int fi, const Fmt *f, int ch)
 			}
 		}
 	if (vl_write (sf, wtype, 0, wbuf, items) != items) { free (wbuf) ; INLIB (sf_close (sf)) ; return 0 ; }
+	if (ch % 2 == 0)
+	{	/* the same file without anything behind the audio, for the handles that refuse such a file (AIFF in SFM_RDWR) */
+		SNDFILE *p2 ; MemDev pd ; SF_INFO pi ; md_init (&pd) ; rt_info (&pi, f, ch, root.rate) ; p2 = md_open (&pd, SFM_WRITE, &pi) ;
+		if (p2 && vl_write (p2, wtype, 0, wbuf, items) == items) { INLIB (sf_close (p2)) ; root.plain_len = pd.len ; root.plain = malloc (pd.len + 1) ; memcpy (root.plain, pd.data, pd.len) ; }
+		else if (p2) INLIB (sf_close (p2)) ;
+		md_free (&pd) ;
+		}
 	free (wbuf) ;
+	/* even channel counts: a string set after the audio, so that (where the container stores strings) a chunk lies behind the audio data
+	** and every read, raw read and seek near the end has something to run into; odd channel counts keep the audio as the last thing in the file */
+	if (ch % 2 == 0) INLIB (sf_set_string (sf, SF_STR_COMMENT, "a comment that lies behind the audio")) ;
 	INLIB (rc = sf_close (sf)) ;
 	root.len = dev.len ; root.bytes = malloc (dev.len + 1) ; memcpy (root.bytes, dev.data, dev.len) ;
 
@@ -266,6 +276,7 @@ static void c05_rdwr_history (int w0sel, int k1sel, int wmode, int k2sel, int k3
 	long w0 = w0sel == 0 ? 0 : w0sel == 1 ? 100 : root.F - 12, p = 0, wp, k ; sf_count_t r ; uint64_t oh = VL_H0 ;
 	md_set (&dev, root.bytes, root.len) ; rt_info_read (&info, root.f, ch, root.rate) ;
 	sf = md_open (&dev, SFM_RDWR, &info) ;
+	if (! sf && root.plain) { md_set (&dev, root.plain, root.plain_len) ; rt_info_read (&info, root.f, ch, root.rate) ; sf = md_open (&dev, SFM_RDWR, &info) ; }
 	if (! sf) { vl_note ("RDWR refused: %s", sf_strerror (NULL)) ; vl_end (0, 1) ; return ; }
 	tell_whence = SEEK_CUR | SFM_READ ;
 	if (type == T_FLOAT && ! root.f->is_float) INLIB (sf_command (sf, SFC_SET_NORM_FLOAT, NULL, SF_FALSE)) ;
